@@ -111,62 +111,143 @@ def outcome_kinds(res):
 BATCH = 48
 
 
+def _run_split(which, lines, jobs):
+    """like common.run_model/run_impl but always split over `jobs` processes (few, large requests);
+    returns the raw result lines"""
+    import concurrent.futures as cf, os
+    import common
+    if which == "model":
+        cmd, env, cwd = ["bash", "-c", "ulimit -s unlimited 2>/dev/null; exec ./modelrun"], None, os.path.join(common.COQ, "extract")
+    else:
+        cmd, env, cwd = [common.PY, os.path.join(common.HARNESS, "implrunner.py")], common.env_for_impl(), common.HARNESS
+    parts = common._chunks(lines, max(1, min(jobs, len(lines))))
+    with cf.ThreadPoolExecutor(len(parts)) as ex:
+        rs = list(ex.map(lambda part: common.run_lines(cmd, part, env=env, cwd=cwd), parts))
+    out = [l for r in rs for l in r[1]]
+    if max(r[0] for r in rs) != 0 or len(out) != len(lines):
+        raise RuntimeError(f"{which} runner failed: got {len(out)}/{len(lines)} lines: " + "".join(r[2] for r in rs)[-1500:])
+    return out
+
+
+_TOK = {"N": "null", "T": "true", "F": "false", "(": "[", ")": "]", "{": '{"E":[', "}": "]}"}
+
+
+def raw_parse(line):
+    """wire text -> nested lists through the C JSON parser; strings stay in code-point form
+    ("97,42"), errors are {"E": [kind, args...]}"""
+    toks = []
+    for t in line.split():
+        c = t[0]
+        if c == "#":
+            toks.append(t[1:])
+        elif c == '"':
+            toks.append('"' + t[1:] + '"')
+        elif c == "~":
+            toks.append('"~' + t[1:] + '"')
+        else:
+            toks.append(_TOK[t])
+    return json.loads(",".join(toks).replace("[,", "[").replace(",]", "]"))
+
+
+def _s(x):
+    return "".join(chr(int(c)) for c in x.split(",")) if x else ""
+
+
+def cook(v):
+    """raw_parse form -> the usual decoded form (Python strs, Err objects)"""
+    if isinstance(v, str):
+        return v if v.startswith("~") else _s(v)
+    if isinstance(v, list):
+        return [cook(x) for x in v]
+    if isinstance(v, dict):
+        k = v["E"]
+        return Err(_s(k[0]), [cook(x) for x in k[1:]])
+    return v
+
+
+def fast_parse(line):
+    return cook(raw_parse(line))
+
+
 def run_both(hists, nslots, watch, jobs=8):
-    """-> (model results, implementation results), one entry per history, canonicalised"""
+    """-> list of (model result, implementation result, raw implementation result) per history.
+    Result lines that are textually identical are accepted as agreeing (the slow canonical
+    comparison is needed only when the texts differ): for those the first two entries are None."""
     ct = class_table()
-    reqs = [("histories", [ct, nslots, [[list(o) for o in h] for h in hists[k:k + BATCH]], list(watch)])
-            for k in range(0, len(hists), BATCH)]
+    batch = max(1, min(BATCH, len(hists) // (2 * jobs) + 1))
+    reqs = [("histories", [ct, nslots, [[list(o) for o in h] for h in hists[k:k + batch]], list(watch)])
+            for k in range(0, len(hists), batch)]
+    lines = [enc(op) + " " + enc(arg) for op, arg in reqs]
+    ml, il = _run_split("model", lines, jobs), _run_split("impl", lines, jobs)
     out = []
-    for res in (run_model(reqs, jobs=jobs), run_impl(reqs, jobs=jobs)):
-        flat = []
-        for rq, r in zip(reqs, res):
-            n = len(rq[1][2])
+    for rq, a, b in zip(reqs, ml, il):
+        n = len(rq[1][2])
+        rb = raw_parse(b)
+        ok = isinstance(rb, list) and len(rb) == n and all(isinstance(x, list) for x in rb)
+        if a == b and ok:
+            out += [(None, None, x) for x in rb]
+            continue
+
+        def flat(r):
+            r = cook(r)
             if isinstance(r, Err) or not isinstance(r, list) or len(r) != n:
-                flat += [r if isinstance(r, Err) else Err("BadBatch")] * n
-            else:
-                flat += [canon_obs("history", x) for x in r]
-        out.append(flat)
-    return out[0], out[1]
+                return [r if isinstance(r, Err) else Err("BadBatch")] * n
+            return [canon_obs("history", x) for x in r]
+        fa, fb = flat(raw_parse(a)), flat(rb)
+        out += [(x, y, (z if ok else None)) for x, y, z in zip(fa, fb, rb if ok else [None] * n)]
+    return out
 
 
 def correspond_histories(ctx, label, hists, nslots, watch, jobs=8):
     """hists: list of op lists.  Returns disagreements as (index, request, model, impl) where
     request = ("history", [class table, nslots, ops, watch]); fills the coverage statistics."""
-    import collections
+    import collections, hashlib
     if not hists:
         return []
-    m, i = run_both(hists, nslots, watch, jobs=jobs)
+    res = run_both(hists, nslots, watch, jobs=jobs)
     diffs, kinds, sizes, distinct = [], collections.Counter(), collections.Counter(), set()
     steps = 0
-    for k, (h, a, b) in enumerate(zip(hists, m, i)):
+    faults = {",".join(str(ord(c)) for c in k) for k in MODEL_FAULTS}
+    raised = ",".join(str(ord(c)) for c in "raised")
+    for k, (h, (a, b, raw)) in enumerate(zip(hists, res)):
         sizes[len(h)] += 1
-        bad = isinstance(a, Err) or a != b
+        bad = (a is not None or b is not None) and (isinstance(a, Err) or a != b)
         if not bad:
-            for step in a:
+            for step in raw:
                 o = step[0]
-                if o[0] == "raised" and o[1] in MODEL_FAULTS:
+                if o[0] == raised and o[1] in faults:
                     bad = True
         if bad:
+            if a is None:
+                a = b = canon_obs("history", cook(raw))
             diffs.append((k, request(h, nslots, watch), a, b))
             continue
-        steps += len(a)
-        for ok in outcome_kinds(b):
-            kinds[ok] += 1
-        distinct.add(enc(b[-1][1:]) if b else "")       # distinct final observable states
+        steps += len(raw)
+        for step in raw:
+            o = step[0]
+            kinds[o[0] + (":" + o[1] if o[0] == raised else "")] += 1
+        if a is None:
+            distinct.add(hashlib.md5(json.dumps(raw[-1][1:]).encode()).digest() if raw else b"")
+        else:
+            distinct.add(hashlib.md5(json.dumps(b[-1][1:], default=repr).encode()).digest() if b else b"")
     st = ctx.cov["correspondence"].setdefault(label, {"cases": 0, "steps": 0, "disagreements": 0, "outcomes": {},
                                                       "history_length_histogram": {}, "distinct_results": 0})
     st["cases"] += len(hists)
     st["steps"] += steps
     st["disagreements"] += len(diffs)
     for k, v in kinds.items():
-        st["outcomes"][k] = st["outcomes"].get(k, 0) + v
+        kk = ":".join(_s(p) for p in k.split(":"))
+        st["outcomes"][kk] = st["outcomes"].get(kk, 0) + v
     for k, v in sizes.items():
         st["history_length_histogram"][str(k)] = st["history_length_histogram"].get(str(k), 0) + v
     st["distinct_results"] += len(distinct)
+    a, b, raw = res[0]
+    last = (lambda x: repr(x[-1] if isinstance(x, list) and x else x)[:600])
+    show = cook(raw) if raw is not None else None
     ctx.add_eval(len(hists), len(distinct),
                  samples=[{"history": hists[0], "slots": nslots, "observed_classes": [NAMES[c] for c in watch],
-                           "model_last_step": repr(m[0][-1] if isinstance(m[0], list) and m[0] else m[0])[:600],
-                           "impl_last_step": repr(i[0][-1] if isinstance(i[0], list) and i[0] else i[0])[:600]}])
+                           "model_last_step": last(a if a is not None else show),
+                           "impl_last_step": last(b if b is not None else show)}])
     return diffs
 
 
@@ -321,3 +402,98 @@ def rotations(seq, sst):
                     t2.append(".")
         out.append((s2, t2))
     return out
+
+
+# ---------------------------------------------------------------------------
+# long random histories over all classes; slots are partitioned by kind so that the
+# generator always knows what a slot can hold
+LAYOUT = {"D": [0, 1, 2, 3], "C": [4, 5, 6], "S": [7, 8], "M": [9, 10], "R": [11, 12]}
+NSLOTS = 13
+TEMPLATES = [([0, "+", 0], ".+."), ([0, "+", 0, "+", 0], "(+)+."), ([0, 1, "+", 1, "+", 0], "((+)+)"),
+             ([0, "+", 1], ".+."), ([0], "."), ([0, 1, "+", 2, 3], "((+))"), ([0, "+", 1, "+", 0, "+", 1], "(+(+)+)"),
+             (["x", 1, "+", "x", 1], "..+.."), ([2, "+", 3, "+", 2, "+", 3], ".+.+.+.")]
+BAD_TEMPLATES = [([0, "+", 1], ")+("), ([0, 1], "."), ([0, "+", 1], "(+."), (["+"], "+"), ([], ""), ([0, "+", "+", 1], "(++)")]
+
+
+def random_history(rng, length, classes=None, p_sub=0.3, weird=0.05):
+    """classes: dict kind -> list of class indices to draw from (first = base class)"""
+    cl = {"D": [D, DA, DAA, DB, DFB, DFA], "C": [C, CA, CAA, CB, CFB, CFA], "S": [S, SA, SFA],
+          "M": [M, MA, MAA, MFA], "R": [R, RA, RFA, RFB]}
+    if classes:
+        cl.update(classes)
+
+    def pick(kind):
+        return cl[kind][0] if rng.random() > p_sub or len(cl[kind]) == 1 else rng.choice(cl[kind][1:])
+    dn = ["a", "a*", "b", "b*", None, "d1", "d2", "q7", "d1*"]
+    cn = [None, None, "c1", "c2", "X", "k3", "s1"]
+    ops = []
+    filled = set()
+
+    def ref(pool):
+        """a slot of the pool that probably holds an object"""
+        f = [s for s in pool if s in filled]
+        return rng.choice(f) if f and rng.random() < 0.93 else rng.choice(pool)
+    for _ in range(length):
+        if ops and ops[-1][0] in ("dom", "cplx", "strand", "macro", "rxn", "inv"):
+            filled.add(ops[-1][1])
+        elif ops and ops[-1][0] == "drop":
+            filled.discard(ops[-1][1])
+        r = rng.random()
+        if r < 0.28:
+            name = rng.choice(dn)
+            length_ = rng.choice([None, None, 3, 5, 5, 9, 15] + ([0, -1] if rng.random() < weird else []))
+            dtype = rng.choice([None, None, None, "short", "long"] + (["odd", ""] if rng.random() < weird else []))
+            prefix = rng.choice([None] * 6 + ["p", ""])
+            if rng.random() < weird:
+                name = rng.choice(["", "*", "**"])
+            ops.append(dom(rng.choice(LAYOUT["D"]), pick("D"), name, length_, prefix if name is None else None, dtype))
+        elif r < 0.33:
+            ops.append(inv(rng.choice(LAYOUT["D"]), ref(LAYOUT["D"])))
+        elif r < 0.50:
+            c = pick("C")
+            if rng.random() < 0.12:
+                ops.append(cplx(rng.choice(LAYOUT["C"]), c, None, None, rng.choice(cn)))
+                continue
+            seq, sst = rng.choice(TEMPLATES if rng.random() > weird * 2 else BAD_TEMPLATES)
+            seq, sst = list(seq), list(sst)
+            if sst and "+" in sst and rng.random() < 0.7 and (seq, sst) not in [(list(a), list(b)) for a, b in BAD_TEMPLATES]:
+                rots = rotations(seq, sst)
+                seq, sst = rng.choice(rots)
+            perm = [ref(LAYOUT["D"]) for _ in range(4)]
+            seq = [perm[e] if isinstance(e, int) else e for e in seq]
+            name = rng.choice(cn)
+            ops.append(cplx(rng.choice(LAYOUT["C"]), c, seq, sst, name, rng.choice([None] * 5 + ["z"]) if name is None else None))
+        elif r < 0.58:
+            c = pick("S")
+            if rng.random() < 0.12:
+                ops.append(strand(rng.choice(LAYOUT["S"]), c, None, rng.choice(cn)))
+                continue
+            seq = [ref(LAYOUT["D"]) if rng.random() < 0.85 else "x" for _ in range(rng.randrange(0, 4))]
+            if rng.random() < weird:
+                seq.append("+")
+            ops.append(strand(rng.choice(LAYOUT["S"]), c, seq, rng.choice(cn)))
+        elif r < 0.68:
+            c = pick("M")
+            if rng.random() < 0.12:
+                ops.append(macro(rng.choice(LAYOUT["M"]), c, None, rng.choice(cn)))
+                continue
+            ms = [ref(LAYOUT["C"] + LAYOUT["S"][:1]) for _ in range(rng.randrange(0 if rng.random() < weird else 1, 4))]
+            ops.append(macro(rng.choice(LAYOUT["M"]), c, ms, rng.choice([None, None, None, "c1", "X", "c2"])))
+        elif r < 0.78:
+            c = pick("R")
+            if rng.random() < 0.12:
+                ops.append(rxn(rng.choice(LAYOUT["R"]), c, None, None, rng.choice([None, "bind21"]) if rng.random() < 0.2 else None,
+                               rng.choice([None, "r1", "[open] c1 -> c2"])))
+                continue
+            pool = LAYOUT["M"] if rng.random() < 0.35 else LAYOUT["C"] + LAYOUT["S"][:1]
+            rs = [ref(pool) for _ in range(rng.randrange(0, 3))]
+            ps = [ref(pool) for _ in range(rng.randrange(0, 3))]
+            ops.append(rxn(rng.choice(LAYOUT["R"]), c, rs, ps, rng.choice(["bind21", "open", "condensed", None, "weird"]),
+                           rng.choice([None, None, None, "r1", "r2"])))
+        elif r < 0.89:
+            ops.append(drop(ref(list(range(NSLOTS)))))
+        elif r < 0.95:
+            ops.append(query(ref(list(range(NSLOTS))), rng.choice(["name", "len", "dtype", "size"])))
+        else:
+            ops.append(turns(ref(LAYOUT["C"] + LAYOUT["S"]), rng.choice([-3, -1, 0, 1, 2, 5])))
+    return ops
